@@ -1,6 +1,7 @@
 package props
 
 import (
+	"fmt"
 	"encoding/base64"
 	"net/http"
 	"net/url"
@@ -332,7 +333,27 @@ func unhex(c byte) byte {
 	return c - 'A' + 10
 }
 
-// sameTarget compares a delivered target with a registered URL modulo percent-encoding.
+// normTarget is the one explicit normaliser delivery targets are compared under (DESIGN.md §5 C02): every byte that is neither
+// unreserved nor one of the delimiters html/template and net/http leave alone is percent-encoded; an existing %XX escape is
+// kept (hex digits upper-cased) and NEVER decoded - "%61" is not "a": a URL that merely decodes to a registered one is another URL.
+func normTarget(s string) string {
+	var sb strings.Builder
+	for i := 0; i < len(s); i++ {
+		c := s[i]
+		switch {
+		case c == '%' && i+2 < len(s) && isHex(s[i+1]) && isHex(s[i+2]):
+			sb.WriteString(strings.ToUpper(s[i : i+3]))
+			i += 2
+		case c >= 'a' && c <= 'z' || c >= 'A' && c <= 'Z' || c >= '0' && c <= '9' || strings.IndexByte("-._~!#$&*+,/:;=?@[]", c) >= 0:
+			sb.WriteByte(c)
+		default:
+			fmt.Fprintf(&sb, "%%%02X", c)
+		}
+	}
+	return sb.String()
+}
+
+// sameTarget compares a delivered target with a registered URL under normTarget.
 func sameTarget(delivered, registered string) bool {
-	return pctDecodeAll(delivered) == pctDecodeAll(registered)
+	return normTarget(delivered) == normTarget(registered)
 }
